@@ -5,6 +5,13 @@ V = "/verif"
 props = [json.loads(l) for l in open(V + "/properties.jsonl")]
 
 CLAIMED = {
+ "C12": dict(
+    text="ORDER/GUARD/TABLE rules on every CFG path: each device-mutating slot of the I/O-manager vtable (computed from the unix manager's raw writes) is defined by the undo manager, "
+         "saves old bytes before forwarding and never forwards after a failed save; first-write-wins bookkeeping in undo_write_tdb; FINISHED marker stored only by undo_close before the flushed final index write; "
+         "six tools install the manager identically and open through it; re-open and e2undo validate header magic/CRC/geometry/features/superblock/key blocks/block CRCs before use, "
+         "e2undo cannot bypass a comparison when not forced, performs all of them before the first device write and never writes under -n. "
+         "Decides the interposition/verification discipline for all tools and inputs; not the key/extent arithmetic.",
+    ref="§4 C12", technique="static analysis: vtable completeness, dominance, control dependence, path-sensitive exploration over clang CFGs"),
  "C17": dict(
     text="Static rules over lib/ext2fs/unix_io.c, undo_io.c, test_io.c, io_manager.c and rw_bitmaps.c decided on every CFG path: "
          "(a) coherence: each cache-bypassing device write in a mutating slot is dominated by flush_cached_blocks(FLUSH_INVALIDATE), whose loop leaves no in-use entry except on write error; "
